@@ -720,6 +720,37 @@ fn observe_owner_cancel(ctx: &mut Ctx, rts: &mut Runtimes) {
     ctx.stat_add("observation.F13.stale_results_after_owner_cancel", stale);
 }
 
+/// "for all numbers of callers": n callers of one key, all registered on the flight before its task completes (current-thread
+/// runtime: the owner's task waits on a gate that is opened after every caller has run up to its wait).  Every caller must get
+/// the answer, the task runs once, and the key is free again afterwards.
+fn many_callers(ctx: &mut Ctx, rts: &mut Runtimes, n: usize) {
+    let group: Arc<Group<u64, u64>> = Arc::new(Group::new());
+    let replay = format!("{{\"suite\":\"singleflight\",\"scenario\":\"many-callers\",\"callers\":{n},\"runtime\":\"current-thread\",\"key\":\"k\"}}");
+    let (answered, executed, owners, later_ok) = rts.ct.block_on(async {
+        let gate = Arc::new(tokio::sync::Semaphore::new(0));
+        let executed = Arc::new(std::sync::atomic::AtomicUsize::new(0));
+        let mut hs = Vec::with_capacity(n);
+        for _ in 0..n {
+            let (g, gate, ex) = (group.clone(), gate.clone(), executed.clone());
+            hs.push(tokio::spawn(async move { g.work("k", async move { ex.fetch_add(1, Ordering::SeqCst); let _ = gate.acquire().await; Ok::<u64, u64>(42) }).await }));
+        }
+        for _ in 0..4 { tokio::task::yield_now().await; }
+        gate.add_permits(n);
+        let mut answered = 0usize; let mut owners = 0usize;
+        let deadline = tokio::time::Instant::now() + Duration::from_secs(20);
+        for h in hs {
+            match tokio::time::timeout_at(deadline, h).await { Ok(Ok((Ok(42), o))) => { answered += 1; if o { owners += 1; } }, Ok(_) => {}, Err(_) => {} }
+        }
+        let later = tokio::time::timeout(Duration::from_secs(2), group.work("k", async { Ok::<u64, u64>(7) })).await;
+        (answered, executed.load(Ordering::SeqCst), owners, matches!(later, Ok((Ok(7), true))))
+    });
+    ctx.stat(&format!("many_callers.{n}"));
+    if answered != n { ctx.fail("C20", "caller-waits-forever", format!("{n} callers of one key were registered on its flight when the task completed; only {answered} of them got the answer within 20 s"), replay.clone()); }
+    else if executed != 1 || owners != 1 { ctx.fail("C20", "many-callers-flight-count", format!("{n} callers registered on one flight: the task ran {executed} times and {owners} callers were told they own the flight"), replay.clone()); }
+    if answered == n && !later_ok { ctx.fail("C20", "key-not-free-after-flight", format!("after a flight with {n} callers finished, a new call of the same key did not start (and own) a new flight"), replay); }
+    if answered != n { rts.ct = new_ct(); }
+}
+
 pub fn run(ctx: &mut Ctx) {
     let prev = install();
     let mut rts = Runtimes { ct: new_ct(), mt: new_mt() };
@@ -743,6 +774,7 @@ pub fn run(ctx: &mut Ctx) {
         ctx.stat(&format!("directed.{}", (i / 2) % 5));
         one(ctx, &mut rts, &sc, tag);
     }
+    for n in if quick { vec![1usize << 16] } else { vec![(1 << 16) - 1, 1 << 16, (1 << 16) + 1, 1 << 17, 100_000] } { many_callers(ctx, &mut rts, n); }
     if !quick { observe_owner_cancel(ctx, &mut rts); }
     ctx.stat_add("observation.owner_error_variant.InternalError", OWNER_ERR_INTERNAL.swap(0, Ordering::Relaxed));
     ctx.stat_add("observation.owner_error_variant.WaiterInternalError", OWNER_ERR_WAITER.swap(0, Ordering::Relaxed));
